@@ -265,6 +265,30 @@ func Run(r *mc.Run) {
 	}
 	partPairs(r, "digit-tokens", toks, nil, map[string]interface{}{"tokens": "0 00 1 9 09 10 99999999999999999999 100000000000000000000 a ~ + .", "max_tokens": 3, "strings": len(toks)})
 
+	// many components: dotted numbers with up to 8 components (more around any new integer constant of the code)
+	maxComp := 8
+	for _, n := range gen.AuditInts(2, 11, 3) {
+		if int(n)+1 > maxComp {
+			maxComp = int(n) + 1
+		}
+	}
+	var dotted []string
+	for k := 1; k <= maxComp; k++ {
+		gen.Odometer([]string{"0", "1"}, k, func(s string) bool {
+			dotted = append(dotted, strings.Join(strings.Split(s, ""), "."))
+			return true
+		})
+	}
+	for _, sep := range []string{"-", "+", "~", "a"} { // the same shape with other separators (fewer components)
+		for k := 2; k <= 6; k++ {
+			gen.Odometer([]string{"1", "2"}, k, func(s string) bool {
+				dotted = append(dotted, strings.Join(strings.Split(s, ""), sep))
+				return true
+			})
+		}
+	}
+	partPairs(r, "many-components", dotted, nil, map[string]interface{}{"shape": "d(.d)* with up to max_components components over {0,1}; d(sep d)* up to 6 over {1,2} for sep in - + ~ a", "max_components": maxComp, "strings": len(dotted)})
+
 	// full versions
 	var full []In
 	ups := append(gen.AllStrings(gen.Chars("01a~+.-:"), 2), auditToks...)
